@@ -185,6 +185,8 @@ def mk_not(c: T) -> T:
         return c.args[0]
     if c.op == "cmp" and c.args[0] in ("In", "NotIn", "Is", "IsNot"):
         # not (a in b) is a not in b; not (a is b) is a is not b
+        # (== / != are left alone: rules reason about `x == y` and its
+        # negation as one atom)
         flip = {"In": "NotIn", "NotIn": "In", "Is": "IsNot", "IsNot": "Is"}
         return T("cmp", flip[c.args[0]], c.args[1], c.args[2])
     return T("not", c)
